@@ -86,6 +86,7 @@ class Exec:
         s.spawned = []
         s.env = {}               # free-form per-path environment used by natives (timers, clocks ...)
         s.depth = 0
+        s.errstack = []
         s.targs = []
 
     # ------------------------------------------------------------------ solver / forking
@@ -318,7 +319,11 @@ class Exec:
             return target(s, *args)
         if callee.endswith('>') and '::<' in callee:
             # explicit turbofish on an interpreted generic function: remember the type arguments for its body
-            s.targs.append(_turbofish(callee))
+            ta = _turbofish(callee)
+            if len(ta) == 1 and re.fullmatch(r'[A-Z]\w?', ta[0]) and s.targs and len(s.targs[-1]) == 1:
+                # `inner::<T>(..)` inside a generic function: T is the caller's own (single) type parameter
+                ta = list(s.targs[-1])
+            s.targs.append(ta)
             try:
                 return s.run(target, args)
             finally:
@@ -358,6 +363,11 @@ class Exec:
                 bb = term(s, fr)
                 if bb is None:
                     return fr[0].v
+        except Exception:
+            # remember the interpreted call chain of the innermost failure (diagnostics only)
+            if len(s.errstack) < 12:
+                s.errstack.append('%s@bb%s' % (getattr(fn, 'name', '?'), bb))
+            raise
         finally:
             s.depth -= 1
 
@@ -1007,7 +1017,14 @@ def compile_term(prog, fn, term):
                 pass
             if tgt is not None and not callable(tgt):
                 ex.run(tgt, [a(ex, fr) for a in fs])
-            raise Panic('panic: ' + callee[:100])
+            detail = ''
+            if callee.endswith('panic_fmt') and fs:
+                try:
+                    from .natives_str import render_arguments
+                    detail = ' "' + ''.join(chr(c) if isinstance(c, int) else '?' for c in render_arguments(ex, ex.deref_all(fs[0](ex, fr))))[:160] + '"'
+                except Exception:
+                    detail = ''
+            raise Panic('panic: ' + callee[:100] + detail + ' in ' + str(getattr(fn, 'name', '?'))[-60:])
         return f
     if k == 'unreachable':
         def f(ex, fr):
